@@ -628,7 +628,7 @@ Proof.
     + intros _ Hi. apply unlink_keys in Hi. destruct Hi as [_ Hi]. contradiction.
     + intros _ Hi. destruct (akeys_In _ _ Hi) as [w1 Hi1].
       destruct (w_arq_k s HW f w1 Hi1) as [z [Hz Hr]]. congruence.
-    + rewrite U1, U5, U4. apply (w_item s HW f x Hg).
+    + rewrite U6. discriminate.
 Qed.
 
 Lemma InvD_with_tn hand t s : InvD hand s -> InvD hand (with_tn t s).
@@ -828,10 +828,9 @@ Lemma rec_upd_W f x x' s :
   InvW s -> getF f s = Some x ->
   f_recv x' = f_recv x -> f_h x' = f_h x -> f_state x' = f_state x -> (f_live x' = true -> f_live x = true) ->
   f_reg x = false -> f_reg x' = false ->
-  (f_recv x' = false -> f_done x' = false -> f_item x' <> None) ->
   InvW (setF f x' s).
 Proof.
-  intros HW Hg Er Eh Es El Hr Hr' Hit.
+  intros HW Hg Er Eh Es El Hr Hr'.
   assert (Heq : core_eq (with_arq (arq s) (with_asq (asq s) (setF f x' s))) (setF f x' s)) by core_eq_refl.
   apply (InvW_ext _ _ Heq). apply InvW_upd with x.
   - exact HW.
@@ -853,7 +852,7 @@ Proof.
   - intros Hrc Hi. destruct (akeys_In _ _ Hi) as [w1 Hi1]. rewrite Es. apply (w_rc0 s HW Hrc f w1 x Hi1 Hg).
   - intros T Hi. destruct (akeys_In _ _ Hi) as [w1 Hi1].
     destruct (w_arq_reg s HW T f w1 Hi1) as [z [Hz Hrz]]. congruence.
-  - exact Hit.
+  - rewrite Hr'. discriminate.
 Qed.
 
 Lemma rec_upd_cnt (P : fut -> bool) f x x' s :
@@ -907,9 +906,7 @@ Proof.
   set (s2 := cancel_reg f x s1) in *. rewrite G2. cbn [ret fst].
   destruct H2 as [HD2 [HW2 HK2]].
   assert (HW3 : InvW (setF f (set_dead x2) s2)).
-  { apply rec_upd_W with x2; try assumption; try reflexivity.
-    - cbn. discriminate.
-    - cbn. apply (w_item s2 HW2 f x2 G2). }
+  { apply rec_upd_W with x2; try assumption; try reflexivity. cbn. discriminate. }
   assert (HK3 : InvK (setF f (set_dead x2) s2)) by (apply rec_upd_K with x2; assumption).
   destruct (f_item x) as [v|] eqn:Ei.
   - apply InvH_destroy. split; [|split; assumption].
@@ -920,4 +917,282 @@ Proof.
   - split; [|split; assumption].
     apply InvD_setF with x2; try assumption; [apply (w_fnd s2 HW2)|].
     intros u. unfold cellp. cbn [f_live f_item set_dead]. rewrite I2. rewrite !andb_false_r. reflexivity.
+Qed.
+
+(** ** creating a future *)
+Lemma InvW_newF f x s :
+  InvW s -> getF f s = None -> f_reg x = false ->
+  (f_live x = true -> exists h, getH (f_h x) s = Some h /\ h_live h = true) ->
+  InvW (setF f x s).
+Proof.
+  intros HW Hn Hr Hh.
+  assert (Hother : forall f1 y, getF f1 s = Some y -> getF f1 (setF f x s) = Some y).
+  { intros f1 y Hy. rewrite getF_setF. destruct (N.eqb_spec f1 f) as [->|]; [congruence | exact Hy]. }
+  destruct HW. constructor; unfold any_live in *; st_simpl.
+  - exact w_hnd.
+  - apply NoDup_aset. exact w_fnd.
+  - exact w_arq_nd.
+  - exact w_asq_nd.
+  - intros f1 w1 Hi. destruct (w_arq_k f1 w1 Hi) as [y [Hy Hry]]. exists y. split; [apply (Hother f1 y Hy) | exact Hry].
+  - intros f1 w1 Hi. destruct (w_asq_k f1 w1 Hi) as [y [Hy Hry]]. exists y. split; [apply (Hother f1 y Hy) | exact Hry].
+  - intros f1 y Hy Hrg. change (getF f1 (setF f x s) = Some y) in Hy. getF_cases Hy; [congruence|]. eapply w_reg; eauto.
+  - intros f1 y Hy Hrg Hwy. change (getF f1 (setF f x s) = Some y) in Hy. getF_cases Hy; [congruence|]. eapply w_wq; eauto.
+  - intros f1 y Hy Hl. change (getF f1 (setF f x s) = Some y) in Hy.
+    change (exists h, getH (f_h y) s = Some h /\ h_live h = true). getF_cases Hy; [auto|]. eapply w_fh; eauto.
+  - intros Hsc f1 w1 y Hi Hy. change (getF f1 (setF f x s) = Some y) in Hy.
+    destruct (w_arq_k f1 w1 Hi) as [z [Hz _]]. getF_cases Hy; [congruence|]. eapply w_sc0; eauto.
+  - intros Hrc f1 w1 y Hi Hy. change (getF f1 (setF f x s) = Some y) in Hy.
+    destruct (w_asq_k f1 w1 Hi) as [z [Hz _]]. getF_cases Hy; [congruence|]. eapply w_rc0; eauto.
+  - intros T f1 w1 Hi. destruct (w_arq_reg T f1 w1 Hi) as [y [Hy Hry]]. exists y. split; [apply (Hother f1 y Hy) | exact Hry].
+  - exact w_freed.
+  - exact w_taint.
+  - intros f1 y Hy Hrv Hd. change (getF f1 (setF f x s) = Some y) in Hy. getF_cases Hy; [congruence|]. eapply w_item; eauto.
+Qed.
+
+Lemma InvK_newF f x s : InvK s -> getF f s = None -> f_reg x = false -> InvK (setF f x s).
+Proof.
+  intros [K1 K2 K3] Hn Hr. destruct (preds_unreg x Hr) as (A1&A2&A3&A4).
+  apply InvK_intro.
+  - exact K1.
+  - intros T1 T2. specialize (K2 T1 T2). change (nq (setF f x s)) with (nq s).
+    rewrite (cnt_setF_new pw_r f x s Hn), (cnt_setF_new pi_r f x s Hn), A1, A2. unfold b2n. rewrite !Nat.add_0_r. exact K2.
+  - intros T. specialize (K3 T). change (nq (setF f x s)) with (nq s). change (ncap (setF f x s)) with (ncap s).
+    rewrite (cnt_setF_new pw_s f x s Hn), (cnt_setF_new pi_s f x s Hn), A3, A4. unfold b2n. rewrite !Nat.add_0_r. exact K3.
+Qed.
+
+Lemma step_mksend s f h : Inv s -> Inv (fst (step s (MkSend f h))).
+Proof.
+  intros H0. apply Inv_reset in H0. unfold step. fold (reset s). set (s1 := reset s) in *. clearbody s1.
+  destruct (getH h s1) as [x|] eqn:Hg; [|exact H0].
+  destruct (h_live x) eqn:Hl; cbn [negb]; [|exact H0].
+  destruct (negb (h_tx x && h_async x)); [exact H0|].
+  destruct (getF f s1) eqn:Hf; [exact H0|].
+  destruct (InvH_fresh s1 H0) as [[HD [HW HK]] Ev]. unfold fresh in *. cbn [fst snd ret] in *.
+  set (s2 := with_next (next s1 + 1) s1) in *.
+  set (xn := mkF false h (Some (next s1)) Waiting false true false).
+  split; [|split].
+  - destruct HD as [A B C]. constructor; [exact A | exact B |].
+    intros u. specialize (C u). unfold tot in *. unfold cells.
+    change (fs (setF f xn s2)) with (aset f xn (fs s2)).
+    rewrite (cnt_aset_new (cellp u) f xn (fs s2) Hf). fold (cells s2 u).
+    unfold cellp. cbn [f_live f_item xn andb occ b2n] in *.
+    change (recvd (setF f xn s2)) with (recvd s2). change (q (setF f xn s2)) with (q s2).
+    change (back (setF f xn s2)) with (back s2). change (dropped (setF f xn s2)) with (dropped s2).
+    change (next (setF f xn s2)) with (next s2).
+    destruct (u =? next s1); cbn [b2n]; lia.
+  - apply InvW_newF; try assumption; try reflexivity.
+    intros _. exists x. split; [exact Hg | exact Hl].
+  - apply InvK_newF; [exact HK | exact Hf | reflexivity].
+Qed.
+
+Lemma step_mkrecv s f h : Inv s -> Inv (fst (step s (MkRecv f h))).
+Proof.
+  intros H0. apply Inv_reset in H0. unfold step. fold (reset s). set (s1 := reset s) in *. clearbody s1.
+  destruct (getH h s1) as [x|] eqn:Hg; [|exact H0].
+  destruct (h_live x) eqn:Hl; cbn [negb]; [|exact H0].
+  destruct (negb (negb (h_tx x) && h_async x)); [exact H0|].
+  destruct (getF f s1) eqn:Hf; [exact H0|].
+  cbn [ret fst]. destruct H0 as [HD [HW HK]].
+  set (xn := mkF true h None Waiting false true false).
+  split; [|split].
+  - destruct HD as [A B C]. constructor; [exact A | exact B |].
+    intros u. specialize (C u). unfold tot in *. unfold cells.
+    change (fs (setF f xn s1)) with (aset f xn (fs s1)).
+    rewrite (cnt_aset_new (cellp u) f xn (fs s1) Hf). fold (cells s1 u).
+    unfold cellp. cbn [f_live f_item xn andb b2n].
+    change (recvd (setF f xn s1)) with (recvd s1). change (q (setF f xn s1)) with (q s1).
+    change (back (setF f xn s1)) with (back s1). change (dropped (setF f xn s1)) with (dropped s1).
+    change (next (setF f xn s1)) with (next s1). cbn [occ] in *. clear - C. lia.
+  - apply InvW_newF; try assumption; try reflexivity.
+    intros _. exists x. split; [exact Hg | exact Hl].
+  - apply InvK_newF; [exact HK | exact Hf | reflexivity].
+Qed.
+
+Ltac st_goal :=
+  cbn [cap fx q sc rc asq arq hs fs next acc recvd back dropped freed tn wk dk bad
+       with_q with_sc with_rc with_asq with_arq with_hs with_fs with_next with_acc with_recvd
+       with_back with_dropped with_freed with_tn with_wk with_dk with_bad setF setH wake].
+
+(** ** SendFuture::poll *)
+Lemma InvD_cell_in f y x' v s :
+  InvD [v] s -> NoDup (akeys (fs s)) -> getF f s = Some y -> (forall u, cellp u y = false) ->
+  f_live x' = true -> f_item x' = Some v ->
+  InvD [] (setF f x' s).
+Proof.
+  intros [A B C] Hnd Hg Hc Hl Hi. constructor; [exact A | exact B |].
+  intros u. specialize (C u). unfold tot in *.
+  pose proof (cnt_setF (cellp u) f y x' s Hnd Hg) as E. fold (cells (setF f x' s) u) in E. fold (cells s u) in E.
+  rewrite Hc in E. unfold cellp in E. rewrite Hl, Hi in E. cbn [andb occ b2n] in *.
+  change (next (setF f x' s)) with (next s). change (recvd (setF f x' s)) with (recvd s).
+  change (q (setF f x' s)) with (q s). change (back (setF f x' s)) with (back s). change (dropped (setF f x' s)) with (dropped s).
+  destruct (u =? v); cbn [b2n] in E; lia.
+Qed.
+
+Lemma not_in_arq_send s f x w : InvW s -> getF f s = Some x -> f_recv x = false -> ~ In (f, w) (arq s).
+Proof. intros HW Hg Hr Hi. destruct (w_arq_k s HW f w Hi) as [z [Hz Hrz]]. congruence. Qed.
+
+Lemma not_in_asq_recv s f x w : InvW s -> getF f s = Some x -> f_recv x = true -> ~ In (f, w) (asq s).
+Proof. intros HW Hg Hr Hi. destruct (w_asq_k s HW f w Hi) as [z [Hz [Hrz _]]]. congruence. Qed.
+
+(* taking the item out of an unqueued send future (`this.item.take()`) *)
+Lemma take_item_W f x0 x' s :
+  InvW s -> getF f s = Some x0 -> f_recv x0 = false -> f_recv x' = false -> f_h x' = f_h x0 ->
+  (f_live x' = true -> f_live x0 = true) -> f_reg x' = false ->
+  (f_reg x0 = true -> is_waiting (f_state x0) = false) ->
+  ~ In f (akeys (asq s)) ->
+  InvW (setF f x' s).
+Proof.
+  intros HW Hg Hr0 Hr' Eh El Hreg Hnw Hnq.
+  assert (Heq : core_eq (with_arq (arq s) (with_asq (asq s) (setF f x' s))) (setF f x' s)) by core_eq_refl.
+  apply (InvW_ext _ _ Heq). apply InvW_upd with x0.
+  - exact HW.
+  - exact Hg.
+  - congruence.
+  - exact Eh.
+  - exact El.
+  - rewrite Hreg. discriminate.
+  - apply (w_arq_nd s HW).
+  - apply (w_asq_nd s HW).
+  - intros f1 w1 Hi. left. split; [|exact Hi]. intros ->. eapply not_in_arq_send; eauto.
+  - intros f1 w1 Hi. left. split; [|exact Hi]. intros ->. apply Hnq. eapply In_akeys; eauto.
+  - auto.
+  - auto.
+  - rewrite Hreg. discriminate.
+  - intros _ Hi. destruct (akeys_In _ _ Hi) as [w1 Hi1]. exfalso. eapply not_in_arq_send; eauto.
+  - intros _ Hi. contradiction.
+  - intros _ Hi. destruct (akeys_In _ _ Hi) as [w1 Hi1]. exfalso. eapply not_in_arq_send; eauto.
+  - rewrite Hreg. discriminate.
+Qed.
+
+Lemma send_try_inv f w x0 s :
+  Inv s -> getF f s = Some x0 -> f_recv x0 = false -> f_live x0 = true -> f_done x0 = false ->
+  (f_reg x0 = true -> is_success (f_state x0) = true) ->
+  ~ In f (akeys (asq s)) ->
+  Inv (fst (send_try f w (set_reg false x0) s)).
+Proof.
+  intros H Hg Hrv Hl Hd Hsucc Hnq. destruct H as [HD [HW HK]].
+  set (x := set_reg false x0).
+  assert (Hnw : f_reg x0 = true -> is_waiting (f_state x0) = false).
+  { intros E. specialize (Hsucc E). destruct (f_state x0); try discriminate; reflexivity. }
+  assert (Eix : f_item x = f_item x0) by reflexivity.
+  unfold send_try. rewrite Eix.
+  destruct (f_item x0) as [v|] eqn:Ei.
+  2:{ (* no item: only an unregistered future can be in that state *)
+      cbn [fst].
+      assert (Hr0 : f_reg x0 = false).
+      { destruct (f_reg x0) eqn:E; [|reflexivity]. exfalso. apply (w_item s HW f x0 Hg Hrv E). exact Ei. }
+      split; [|split].
+      - apply InvD_setF with x0; [exact HD | apply (w_fnd s HW) | exact Hg |].
+        intros u. unfold cellp. cbn. rewrite Ei. reflexivity.
+      - apply rec_upd_W with x0; try assumption; try reflexivity. cbn. auto.
+      - apply rec_upd_K with x0; try assumption. reflexivity. }
+  set (x1 := set_item None x).
+  set (s0 := setF f x1 s).
+  assert (HD0 : InvD [v] s0).
+  { apply InvD_cell_out with x0; try assumption; [apply (w_fnd s HW)|]. intros u. unfold cellp. cbn. apply andb_false_r. }
+  assert (HW0 : InvW s0).
+  { apply take_item_W with x0; try assumption; try reflexivity. cbn. auto. }
+  assert (G0 : getF f s0 = Some x1) by (unfold s0; rewrite getF_setF, N.eqb_refl; reflexivity).
+  destruct (cnt4 f x0 x1 s s0 (w_fnd s HW) Hg eq_refl) as (C1 & C2 & C3 & C4).
+  assert (P1 : pw_r x1 = false /\ pi_r x1 = false /\ pw_s x1 = false /\ pi_s x1 = false) by (apply preds_unreg; reflexivity).
+  destruct P1 as (P1&P2&P3&P4). rewrite P1 in C1. rewrite P2 in C2. rewrite P3 in C3. rewrite P4 in C4.
+  assert (Q1 : pw_r x0 = false) by (unfold pw_r; rewrite Hrv; reflexivity).
+  assert (Q2 : pi_r x0 = false) by (unfold pi_r; rewrite Hrv; reflexivity).
+  assert (Q3 : pw_s x0 = false).
+  { unfold pw_s. destruct (f_reg x0) eqn:E; [rewrite (Hnw eq_refl)|]; rewrite ?andb_false_r; reflexivity. }
+  rewrite Q1 in C1. rewrite Q2 in C2. rewrite Q3 in C3. unfold b2n in C1, C2, C3. cbn [b2n] in C4.
+  assert (Q4 : (b2n (pi_s x0) <= 1)%nat) by (clear; unfold b2n; destruct (pi_s x0); lia).
+  destruct HK as [K1 K2 K3]. fold (nq s) in K2, K3. fold (ncap s) in K3.
+  assert (Ecell0 : forall u, cellp u x1 = false) by (intros u; unfold cellp; cbn; apply andb_false_r).
+  pose proof (try_send_core_core v s0 HD0 HW0) as Hs.
+  destruct (try_send_core v s0) as [s1 [| |]]; cbn [fst].
+  - (* accepted *)
+    destruct Hs as (HD1 & HW1 & Hrc & Hlt & Hnq1 & Hq1 & Fr & Hasq & (Es1 & Es2 & b & Hb & Er1 & Er2 & Er3) & Hkeep).
+    destruct Fr as (Fcap & Ffx & Fsc & Frc & Fhs & Fnext & Fback & Fdropped & Ffreed & Ftn & Fdk).
+    assert (G1 : getF f s1 = Some x1) by (apply Hkeep; [exact G0 | exact Hrv]).
+    set (xd := set_done (set_reg false (set_item None x))).
+    assert (Pd : f_reg xd = false) by reflexivity.
+    destruct (preds_unreg xd Pd) as (D1&D2&D3&D4).
+    split; [|split].
+    + apply InvD_setF with x1; [exact HD1 | apply (w_fnd s1 HW1) | exact G1 |].
+      intros u. rewrite Ecell0. unfold cellp. cbn. apply andb_false_r.
+    + apply rec_upd_W with x1; try assumption; try reflexivity. cbn. auto.
+    + apply InvK_intro.
+      * st_goal. rewrite Ftn, Fhs, Fsc, Frc. exact K1.
+      * pose proof (rec_upd_cnt pw_r f x1 xd s1 HW1 G1 P1 D1) as U1.
+        pose proof (rec_upd_cnt pi_r f x1 xd s1 HW1 G1 P2 D2) as U2.
+        unfold nq. st_goal. fold (nq s1). rewrite Ftn. intros T1 T2. specialize (K2 T1 T2).
+        change (fs (setF f xd s1)) with (aset f xd (fs s1)) in U1, U2. subst xd x1. rewrite U1, U2.
+        change (tn s0) with (tn s) in Er3. change (nq s0) with (nq s) in Hnq1.
+        clear - K2 C1 C2 Er1 Er2 Er3 Hnq1 Hb T1. destruct b as [|[|b]]; [specialize (Er3 eq_refl T1) | | ]; lia.
+      * pose proof (rec_upd_cnt pw_s f x1 xd s1 HW1 G1 P3 D3) as U1.
+        pose proof (rec_upd_cnt pi_s f x1 xd s1 HW1 G1 P4 D4) as U2.
+        unfold nq, ncap. st_goal. fold (nq s1). fold (ncap s1). rewrite Ftn. intros T. specialize (K3 T).
+        change (fs (setF f xd s1)) with (aset f xd (fs s1)) in U1, U2. subst xd x1. rewrite U1, U2.
+        assert (Ec : ncap s1 = ncap s) by (unfold ncap; rewrite Fcap; reflexivity).
+        change (nq s0) with (nq s) in Hnq1.
+        clear - K3 C3 C4 Es1 Es2 Hnq1 Q4 Ec. lia.
+  - (* full: put the item back and park *)
+    destruct Hs as (-> & Hrc & Hfull).
+    set (xw := set_reg true (set_state Waiting x)).
+    assert (Heq : core_eq (with_arq (arq s0) (with_asq (asq s0 ++ [(f, w)]) (setF f xw s0)))
+                          (with_asq (asq s0 ++ [(f, w)]) (setF f xw s0))) by core_eq_refl.
+    assert (Hnq0 : ~ In f (akeys (asq s0))) by exact Hnq.
+    split; [|split].
+    + apply (InvD_ext [] _ _ Heq).
+      assert (HDx : InvD [] (setF f xw s0)).
+      { apply InvD_cell_in with x1 v; try assumption; try reflexivity; try apply (w_fnd s0 HW0). }
+      destruct HDx as [A B C]. constructor; [exact A | exact B | exact C].
+    + apply (InvW_ext _ _ Heq). apply InvW_upd with x1.
+      * exact HW0.
+      * exact G0.
+      * reflexivity.
+      * reflexivity.
+      * cbn. auto.
+      * cbn. auto.
+      * apply (w_arq_nd s0 HW0).
+      * rewrite akeys_app. apply NoDup_app_single; [apply (w_asq_nd s0 HW0) | exact Hnq0].
+      * intros f1 w1 Hi. left. split; [|exact Hi]. intros ->. eapply (not_in_arq_send s0); eauto.
+      * intros f1 w1 Hi. apply in_app_or in Hi. destruct Hi as [Hi|[Hi|[]]].
+        -- left. split; [|exact Hi]. intros ->. apply Hnq0. eapply In_akeys; eauto.
+        -- inversion Hi; subst. right. cbn. auto.
+      * auto.
+      * intros f1 _ Hi. rewrite akeys_app. apply in_or_app. left. exact Hi.
+      * intros _ _. change (f_recv x1) with (f_recv x0). rewrite Hrv. rewrite akeys_app. apply in_or_app. right. left. reflexivity.
+      * intros _ Hi. destruct (akeys_In _ _ Hi) as [w1 Hi1]. exfalso. eapply (not_in_arq_send s0); eauto.
+      * intros E. exfalso. apply Hrc. exact E.
+      * intros _ Hi. destruct (akeys_In _ _ Hi) as [w1 Hi1]. exfalso. eapply (not_in_arq_send s0); eauto.
+      * intros _ _. cbn. rewrite Ei. discriminate.
+    + destruct (cnt4 f x1 xw s0 (with_asq (asq s0 ++ [(f, w)]) (setF f xw s0)) (w_fnd s0 HW0) G0 eq_refl) as (E1 & E2 & E3 & E4).
+      rewrite P1 in E1. rewrite P2 in E2. rewrite P3 in E3. rewrite P4 in E4.
+      assert (W1 : pw_r xw = false) by (unfold pw_r; cbn; rewrite Hrv; reflexivity).
+      assert (W2 : pi_r xw = false) by (unfold pi_r; cbn; rewrite Hrv; reflexivity).
+      assert (W3 : pw_s xw = true) by (unfold pw_s; cbn; rewrite Hrv; reflexivity).
+      assert (W4 : pi_s xw = false) by (unfold pi_s; cbn; rewrite Hrv; reflexivity).
+      rewrite W1 in E1. rewrite W2 in E2. rewrite W3 in E3. rewrite W4 in E4. unfold b2n in E1, E2, E3, E4.
+      apply InvK_intro.
+      * exact K1.
+      * intros T1 T2. specialize (K2 T1 T2).
+        change (nq (with_asq (asq s0 ++ [(f, w)]) (setF f xw s0))) with (nq s).
+        clear - K2 C1 C2 E1 E2. lia.
+      * intros _. right.
+        change (nq (with_asq (asq s0 ++ [(f, w)]) (setF f xw s0))) with (nq s).
+        change (ncap (with_asq (asq s0 ++ [(f, w)]) (setF f xw s0))) with (ncap s).
+        change (nq s0) with (nq s) in Hfull. change (ncap s0) with (ncap s) in Hfull.
+        clear - Hfull. lia.
+  - (* all receivers gone: put the item back, fail *)
+    destruct Hs as (-> & Hrc).
+    set (xc := set_done (set_reg false x)).
+    split; [|split].
+    + apply InvD_cell_in with x1 v; try assumption; try reflexivity; try apply (w_fnd s0 HW0).
+    + apply rec_upd_W with x1; try assumption; try reflexivity. cbn. auto.
+    + assert (Pc : f_reg xc = false) by reflexivity.
+      destruct (preds_unreg xc Pc) as (D1&D2&D3&D4).
+      apply InvK_intro.
+      * exact K1.
+      * intros T1 T2. specialize (K2 T1 T2). change (nq (setF f xc s0)) with (nq s).
+        rewrite (rec_upd_cnt pw_r f x1 xc s0 HW0 G0 P1 D1), (rec_upd_cnt pi_r f x1 xc s0 HW0 G0 P2 D2).
+        clear - K2 C1 C2. lia.
+      * intros _. left. rewrite (rec_upd_cnt pw_s f x1 xc s0 HW0 G0 P3 D3).
+        apply no_waiting_s; [exact HW0|]. apply (w_rc0 s0 HW0). exact Hrc.
 Qed.
